@@ -47,7 +47,8 @@ THOROUGH_MC = [
     ("t_quick2", "Dev={} 2 clients x 1 msg, pool 2", "ok", [a for a in ACTIONS_CORE if a != "Loop_Flush"]),
     ("t_uni", "Dev={} 2 clients x <=2 msgs, pool 2, echo", "ok", ACTIONS_CORE),
     ("t_bc", "Dev={} 2 clients, pool 2, bc replies + ext unicast", "ok", None),
-    ("t_hb", "Dev={} 2 clients, pool 2, heartbeat", "ok", None),
+    ("t_hb", "Dev={} heartbeat, 2 clients (no messages): ping rounds, pongs, timeouts", "ok", None),
+    ("t_hb1", "Dev={} heartbeat, 1 client x <=2 msgs + ping, pool 2, echo", "ok", None),
     ("t_aswritten", "as written, 2 clients, 2 workers, bc replies: dispatch + delivery", "ok", None),
     ("t_aswritten_n1", "as written, 1 worker, 2 clients x <=2 msgs: all properties", "ok", None),
     ("t_c3", "Dev={} 3 clients connect/close/vanish, greeting + departure broadcast", "ok", None),
